@@ -38,7 +38,8 @@ def run(ctx):
     ck.rule('C13-D8', 'nothing the pipeline can be parked on outlives a stop: (a) every writer of a non-running state also sets the '
                       'un-pause event the supervisor loop may be waiting on; (b) that event is set only under a non-zero concurrency or '
                       'together with a non-running state, so the supervisor loop cannot spin without suspending; (c) before the '
-                      'producer task is awaited at shutdown, a producer blocked behind a queued item is released (queue drained or task cancelled)')
+                      'producer task is awaited at shutdown, a producer blocked behind a queued item is released (queue drained or task cancelled); '
+                      '(d) a semaphore or condition taken by hand in an item task or pipeline helper is released on every feasible normal path')
 
     IQ = PIPE + ':ItemQueue'
     # ------------------------------------------------------------------ D1
@@ -668,6 +669,11 @@ def _d8_parking(ctx):
                 ck.expect(retrieved, 'C13-D8', m.qual, 'results of the awaited worker tasks are retrieved',
                           'a task that fails after stop() was requested is only waited for, its exception is never retrieved: the failure does '
                           'not surface from process() (and, its poison pill untaken, the producer can stay blocked behind a queued item)', m.loc(c))
+    # (d) item tasks and pipeline helpers that take a semaphore by hand give it back
+    from .common import acquire_release_pairing_lint
+    n_pairs = acquire_release_pairing_lint(ctx, 'C13-D8', ('wpull.application.tasks', 'wpull.pipeline', 'wpull.application.app'))
+    if n_pairs < 1:
+        raise AnalysisError('expected the hand-made acquire/release pairs of the pipeline and of ResmonSleepTask (found %d)' % n_pairs)
     # (c) the producer at shutdown
     sd = [m for m in pl.methods.values() if any(norm_text(y) == 'yield from self._producer_task' for y in walk_no_nested(m.node) if isinstance(y, ast.YieldFrom))]
     if len(sd) != 1:
